@@ -326,6 +326,103 @@ def classify(v):
     return None
 
 
+# ---------------------------------------------------------------------------
+# dynamic constraints that contain soft statements: histories of calls on ONE object
+# ---------------------------------------------------------------------------
+
+def mk_ds():
+    @vsc.randobj
+    class DS(object):
+        def __init__(self):
+            self.a = vsc.rand_bit_t(3)
+            self.b = vsc.rand_bit_t(2)
+
+        @vsc.dynamic_constraint
+        def small(self):
+            self.a < 4
+            vsc.soft(self.a == 1)
+
+        @vsc.dynamic_constraint
+        def big(self):
+            self.a >= 4
+            vsc.soft(self.a == 6)
+    return DS
+
+
+def _s1(it):
+    it.small()
+
+
+def _s2(it):
+    ~it.small()
+
+
+def _s3(it):
+    it.small() | it.big()
+    it.a > 4
+
+
+def _s4(it):
+    it.big()
+    vsc.soft(it.a == 5)       # stated after the reference: the later soft wins
+
+
+def _s0(it):
+    it.a != 0
+
+
+# scenario -> (inline block, values of a the call may return): a referenced block imposes its hard statements and,
+# when referenced as a statement, its softs (greedy, later wins); as a Boolean term only its hard statements compose
+DS_SCN = {"ref": (_s1, {1}), "not": (_s2, {4, 5, 6, 7}), "or": (_s3, {5, 6, 7}), "ref+soft": (_s4, {5}), "none": (_s0, set(range(1, 8)))}
+
+
+def ds_case(hist):
+    DS = mk_ds()
+    viol = []
+    cnt = {"executions": 0, "env_transitions": 0, "rand_steps": 1}
+    reached = set()
+
+    def run(s):
+        o = DS()
+        for k, nm in enumerate(hist):
+            o.set_randstate(SRandState(s if k == len(hist) - 1 else Script([])))
+
+            def f():
+                with o.randomize_with() as it:
+                    DS_SCN[nm][0](it)
+            out = common.outcome(f)
+            if out[0] != "ok":
+                return out, k, None
+        return out, len(hist) - 1, int(o.a)
+    st = {}
+    for x in explore(run, bound=None, cap=6000, state=st):
+        out, k, a = x.obs
+        cnt["executions"] += 1
+        cnt["env_transitions"] += len(x.trace)
+        if out[0] != "ok":
+            viol.append({"subcheck": "unexpected_failure", "case": {"ds_hist": list(hist), "choices": x.choices}, "observed": list(out),
+                         "expected": "returns", "what": "dynamic blocks with softs, inline history %r: call %d ended with %r" % (list(hist), k, out)})
+            break
+        reached.add(a)
+    exp = DS_SCN[hist[-1]][1]
+    if not viol and not st.get("capped") and reached != exp:
+        viol.append({"subcheck": "inline_or_class_constraint_violated" if reached - exp else "solution_unreachable",
+                     "case": {"ds_hist": list(hist), "choices": None}, "observed": sorted(reached), "expected": sorted(exp),
+                     "what": "dynamic blocks with soft statements, inline history %r: the last call returns a in %r, the reference "
+                             "(independent of the earlier calls) allows exactly %r" % (list(hist), sorted(reached), sorted(exp))})
+    return {"viol": viol, "cnt": cnt, "capped": bool(st.get("capped"))}
+
+
+def ds_histories(tier):
+    import itertools
+    names = sorted(DS_SCN)
+    out = []
+    for n in ((1, 2, 3) if tier == "quick" else (1, 2, 3, 4)):
+        for h in itertools.product(names, repeat=n):
+            out.append(tuple(h))
+    return out
+
+
 def run(res, only=None):
     depth = 3 if res.tier == "quick" else 4
     stats, viols, cnts = bfs.search(expand, init_key(), depth, seed=res.seed, max_states=20000)
@@ -346,10 +443,24 @@ def run(res, only=None):
     for v in viols:
         v["finding"] = classify(v)
         res.violation(v)
+    hs = common.rotate(ds_histories(res.tier), res.seed)
+    for h, r in common.good(hs, common.pmap(ds_case, hs), res):
+        res.add("traces_validated_against_impl", r["cnt"]["executions"])
+        res.add("evaluations", r["cnt"]["executions"])
+        res.add("transitions", r["cnt"]["env_transitions"])
+        res.subcount("dynamic_with_soft", "histories")
+        res.subcount("dynamic_with_soft", "capped", 1 if r["capped"] else 0)
+        for v in r["viol"]:
+            v["finding"] = classify(v)
+            res.violation(v)
 
 
 def replay(rec):
     c = rec["case"]
+    if c.get("ds_hist"):
+        r = ds_case(tuple(c["ds_hist"]))
+        bad = [x for x in r["viol"] if x["subcheck"] == rec["subcheck"]]
+        return (not bad), (bad[0]["what"] if bad else "holds")
     v, cnt = check_call(c["hist"], c["op"])
     bad = [x for x in v if x["subcheck"] == rec["subcheck"]]
     return (not bad), (bad[0]["what"] if bad else "reachable set equals the reference solution set")
